@@ -121,8 +121,13 @@ class TracedLock:
         return self._real.acquire(blocking, timeout)
 
     def release(self):
-        self._real.release()
-        self._sched.point('rel', self._name)
+        # 'rel' = the lock is released when this event is granted; 'run' = the thread goes on in its unlocked section.
+        # The two points let the scheduler put other threads between the release and the code that follows it.
+        try:
+            self._sched.point('rel', self._name)
+        finally:
+            self._real.release()      # never leak the real lock, whatever the scheduler says
+        self._sched.point('run', self._name)
 
     def __enter__(self):
         self.acquire()
